@@ -13,7 +13,8 @@ def run(prog, world, sem, rep):
     rep.rule("C06.b", "exact sum by complement: stSei pool := checked_sub(delegated_sum, new bSei pool); bSei pool := delegated_sum x "
              "from_ratio(old bSei pool, booked_sum); booked_sum = old bSei pool + old stSei pool", 3)
     rep.rule("C06.d", "delegated_sum accumulates only delegations whose denom equals Parameters.underlying_coin_denom, of the hub's own delegations", 2)
-    rep.rule("C06.f", "the re-synchronised State is persisted as computed (STATE.save of the recomputed value) and CheckSlashing runs it", 2)
+    rep.rule("C06.f", "the re-synchronised State is persisted as computed (STATE.save of the recomputed value), it - not the stored copy - is what the resync "
+             "returns to the pricing handlers on every success path, and CheckSlashing runs it", 3)
 
     rep.rule("C06.g", "recognition is unconditional: every success exit of the recompute function lies behind the comparison of the booked total with "
              "the delegated total (no shortcut returns the stored State unchecked)", 1)
@@ -174,6 +175,17 @@ def run(prog, world, sem, rep):
             okp = base.op == "call" and base.info in rc
             det = "saved value %s" % show(v, 3)
     rep.ob("C06.f", "resync saves exactly the recomputed State", okp, det, where(rbody))
+    # what the pricing handlers work with: every Ok result of the resync is the recomputed State (never the stored copy, whose
+    # exchange rates are those of the last write)
+    rets = [world.ident(x, expand_ws=False) for x in (world._ok_alts(world.ret_expr(rbody), "ok", 0, False) or [])]
+    badr = []
+    for x in rets:
+        base = x.args[0] if x.op == "proj" else x
+        if not (base.op == "call" and base.info in rc):
+            badr.append(show(x, 3))
+    rep.ob("C06.f", "resync returns the recomputed State on every success path", bool(rets) and not badr,
+           "the resync can hand %s to the pricing handlers instead of the recomputed State (stale exchange rates price the operation)" % badr if badr or not rets
+           else "every Ok result is the value of the recompute function", where(rbody))
     ex = entry(prog, "hub")
     vs = explore(sem, ex, variant_env(prog, ex, "CheckSlashing"))
     called = any(v.body.path in rs for v in vs)
